@@ -24,7 +24,11 @@ fn describe(a: &AtomicNumber, z: usize) -> String {
 pub fn run(out: &mut Out, _seed: u64, _tier: &str) {
     let syms = symbols();
     let mut n = 0usize;
-    for z in 0..=130usize {
+    // 0..130, then integers far outside the table: around powers of two (where a narrowing conversion would wrap), the largest values
+    let mut zs: Vec<usize> = (0..=130usize).collect();
+    for sh in [8u32, 16, 31, 32, 33, 48, 63] { for d in [0usize, 1, 6, 8, 92, 118, 119] { if let Some(v) = (1usize << sh).checked_add(d) { zs.push(v); } } }
+    for v in [usize::MAX, usize::MAX - 117, u32::MAX as usize, u32::MAX as usize + 1, 1000, 255, 256, 257] { zs.push(v); }
+    for z in zs {
         let line = match AtomicNumber::from_integer(z) {
             Ok(a) => describe(&a, z),
             Err(_) => "refused".to_string(),
